@@ -63,6 +63,7 @@ type Exec struct {
 	mapOrder  int             // 0 insertion, 1 reverse, 2 symbolic permutation
 	typeCache map[string]types.Type
 	hooks     *hookState
+	il        *interleaving // verifInterleave: pending preemption of the first invocation
 	callTrace []string
 	traceOn   bool
 	pathState map[string]any
